@@ -1310,3 +1310,104 @@ func sortStrings(xs []string) {
 		}
 	}
 }
+
+// ---------------------------------------------------------------- R-COPIES
+
+// TemplateCopies: the monad packages' generated combinator files are copies of one template.
+//
+// monad_gen writes the same derived combinators (Map, Flatten, Ap, Map2, Zip, LiftA*, Flap*, Method*, Compose*, …;
+// Traverse*, Sequence*, FoldM-based helpers) into every monad package. A function of that name in one package must use
+// the same callees as its namesakes — own-package callees compared by name — or it no longer is the definition in terms
+// of FlatMap and the unit that the other instances have.
+func TemplateCopies(c *core.Ctx, rule string, pkgs []*packages.Package, floor int) {
+	c.Rule(rule, "a function in a generated file (*_monad.go, *_traverse.go, …) of a monad package uses the same set of callees as the functions of the same name in the generated files of the other monad packages (callees of the package itself compared by name, arity digits kept): the derived combinators are copies of one template, so a copy that deviates from the majority of at least three is not the definition in terms of FlatMap and the unit")
+	type member struct {
+		fb  *fnBody
+		sig string
+	}
+	byName := map[string][]member{}
+	for _, fb := range funcBodies(c, pkgs) {
+		if fb.Lit != nil || fb.Decl == nil || fb.Decl.Recv != nil || !isGenerated(fb.File) {
+			continue
+		}
+		info := fb.Pkg.TypesInfo
+		set := map[string]bool{}
+		params := map[types.Object]bool{}
+		for _, f := range fb.Type.Params.List {
+			for _, nm := range f.Names {
+				if o := info.Defs[nm]; o != nil {
+					if _, isFn := o.Type().Underlying().(*types.Signature); isFn {
+						params[o] = true
+					}
+				}
+			}
+		}
+		ast.Inspect(fb.Body, func(x ast.Node) bool {
+			call, ok := x.(*ast.CallExpr)
+			if !ok {
+				return true
+			}
+			if callee := calleeOf(info, call); callee != nil {
+				pk := ""
+				if callee.Pkg() != nil && callee.Pkg() != fb.Pkg.Types {
+					pk = callee.Pkg().Name() + "."
+				} else if callee.Pkg() != nil {
+					pk = "M."
+				}
+				recv := ""
+				if sig, ok := callee.Type().(*types.Signature); ok && sig.Recv() != nil {
+					if rn := namedOf(sig.Recv().Type()); rn != nil {
+						recv = rn.Obj().Name() + "."
+						if rn.Obj().Pkg() == fb.Pkg.Types {
+							pk = "M."
+						}
+					}
+				}
+				set[pk+recv+callee.Name()] = true
+			} else if params[objOf(info, call.Fun)] {
+				set["<invokes a function parameter>"] = true
+			}
+			return true
+		})
+		var names []string
+		for s := range set {
+			names = append(names, s)
+		}
+		sortStrings(names)
+		byName[fb.Decl.Name.Name] = append(byName[fb.Decl.Name.Name], member{fb, joinStrs(names)})
+	}
+	var keys []string
+	for k := range byName {
+		keys = append(keys, k)
+	}
+	sortStrings(keys)
+	n := 0
+	for _, k := range keys {
+		ms := byName[k]
+		if len(ms) < 3 {
+			continue
+		}
+		cnt := map[string]int{}
+		for _, m := range ms {
+			cnt[m.sig]++
+		}
+		best, bestN := "", 0
+		for s, k2 := range cnt {
+			if k2 > bestN || (k2 == bestN && s < best) {
+				best, bestN = s, k2
+			}
+		}
+		if bestN*2 <= len(ms) || bestN < 3 {
+			continue
+		}
+		for _, m := range ms {
+			n++
+			if m.sig != best {
+				c.Add(rule, m.fb.Name, m.fb.Decl.Pos(), core.Violated, m.fb.Name+" uses {"+m.sig+"} where "+itoa(bestN)+" of its "+itoa(len(ms))+" namesakes in the other monad packages use {"+best+"}: this copy is no longer the template's definition")
+			} else {
+				c.Add(rule, m.fb.Name, m.fb.Decl.Pos(), core.Discharged, "same callees as its namesakes")
+			}
+		}
+	}
+	c.Floor(rule, "generated namesakes compared", n, floor)
+}
